@@ -698,3 +698,90 @@ func VHarness_C10_TanIOError() {
 	}
 	vReach("done")
 }
+
+// C09/C10 (Tan, records larger than a block): one save whose record spans
+// several (scaled) blocks - the first/middle/last fragment path of the record
+// writer and reader.  Without a fault: the payload read back before and after
+// a reopen is the one saved.  With an I/O error injected at a symbolic write
+// or sync of that save: the save fails (error or panic), it never returns
+// success.  With a crash before a symbolic fsync: an acknowledged save is
+// completely readable after the reopen.
+//vcheck: props=C09 reach=multi-block,intact,reopened,injected,crashed,done workers=16 allow="injected error"
+func VHarness_C10_TanLargeRecord() {
+	env := vNewTanEnv()
+	l, err := env.open()
+	vAssert(err == nil, "open-ok")
+	ms := []*vTanNode{{shard: 1, replica: 1}, {shard: 1, replica: 2}}
+	uds := vTanFirstSave(ms)
+	vAssert(l.SaveRaftState(uds, 1) == nil, "first-save-ok")
+	for i, m := range ms {
+		m.apply(uds[i])
+	}
+	a := ms[0]
+	// payload of 70 / 150 / 200 bytes: 2..4 blocks of 64 bytes
+	size := []int{70, 150, 200}[vChoose("payload", 3)]
+	cmd := make([]byte, size)
+	for i := range cmd {
+		cmd[i] = byte(i)
+	}
+	cmd[0], cmd[size/2], cmd[size-1] = vU8("b0"), vU8("bm"), vU8("bz")
+	t := vU64("term")
+	vAssume(t >= a.maxTerm && t >= 1 && t < 128)
+	e := pb.Entry{Index: a.last() + 1, Term: t, Type: pb.ApplicationEntry, Cmd: cmd}
+	u := pb.Update{ShardID: a.shard, ReplicaID: a.replica, EntriesToSave: []pb.Entry{e}, State: pb.State{Term: t, Vote: 1, Commit: a.state.Commit}}
+	vReach("multi-block")
+	mode := vChoose("fault", 3)
+	switch mode {
+	case 1:
+		env.inj.failAt = vChoose("failAtOp", 10)
+		env.inj.armed = true
+	case 2:
+		env.inj.crashAt = env.inj.syncs + vChoose("crashBeforeSync", 6)
+	}
+	err = l.SaveRaftState([]pb.Update{u}, 1)
+	env.inj.armed = false
+	if mode == 1 {
+		if env.inj.failed {
+			vReach("injected")
+			vAssert(err != nil, "io-error-during-save-is-reported")
+		} else {
+			vAssert(err == nil, "save-ok")
+		}
+		vReach("done")
+		return
+	}
+	vAssert(err == nil, "save-ok")
+	acked := !env.inj.crashed
+	check := func(l *LogDB, tag string) {
+		ents, _, err := l.IterateEntries(nil, 0, a.shard, a.replica, e.Index, e.Index+1, 1<<40)
+		vAssert(err == nil && len(ents) == 1, tag+"large-entry-returned")
+		if err == nil && len(ents) == 1 {
+			vAssert(ents[0].Index == e.Index && ents[0].Term == e.Term && len(ents[0].Cmd) == size, tag+"large-entry-fields")
+			if len(ents[0].Cmd) == size {
+				for i := range cmd {
+					vAssert(ents[0].Cmd[i] == cmd[i], tag+"large-entry-payload-identical")
+				}
+			}
+		}
+		rs, err := l.ReadRaftState(a.shard, a.replica, 0)
+		vAssert(err == nil && rs.State.Term == t && rs.EntryCount == e.Index, tag+"state-and-length")
+	}
+	if mode == 0 {
+		check(l, "")
+		vReach("intact")
+	}
+	vAssert(l.Close() == nil, "close-ok")
+	if mode == 2 && env.inj.crashed {
+		vReach("crashed")
+	}
+	env.mem.ResetToSyncedState()
+	env.mem.SetIgnoreSyncs(false)
+	env.inj.crashAt = -1
+	l2, err := env.open()
+	vAssert(err == nil, "reopen-ok")
+	if acked {
+		check(l2, "reopened-")
+		vReach("reopened")
+	}
+	vReach("done")
+}
